@@ -129,6 +129,17 @@ def pySlice (arr : List Val) (lo hi : Int) : List Val :=
   let norm (v : Int) : Nat := (if v < 0 then max (v + n) 0 else min v n).toNat
   (arr.drop (norm lo)).take (norm hi - norm lo)
 
+/-- the assertions of `_do_create_epr` for a keep request (`type == RequestType.K`): a qubit-id array
+with exactly `number` entries -/
+def okKeep (ap : App) (t : Int) (qa : Val) (n : Int) : Bool :=
+  if t = 0 then
+    match qa with
+    | none => false
+    | some a => match ap.arrays a with
+      | none => false
+      | some qarr => decide ((qarr.length : Int) = n)
+  else true
+
 /-- `_instr_create_epr` + `_do_create_epr` + `_get_create_request`, the stack accepting the request -/
 def createEpr (cfg : Cfg) (c : CState) (sub : Nat) (ap : App) (pc : Int)
     (r0 r1 r2 r3 r4 : XReg) : EStep :=
@@ -143,16 +154,8 @@ def createEpr (cfg : Cfg) (c : CState) (sub : Nat) (ap : App) (pc : Int)
       | some kw =>
         match kwGet kw "type", kwGet kw "number" with
         | some (.reqType t), some (.int n) =>
-          let qa := ap.regs r2
-          let okK : Bool :=
-            if t = 0 then
-              match qa with
-              | none => false
-              | some a => match ap.arrays a with
-                | none => false
-                | some qarr => decide ((qarr.length : Int) = n)
-            else true
-          if okK then .ok (enqueue c ⟨remote, purpose, true⟩ sub resA qa n) (pc + 1)
+          if okKeep ap t (ap.regs r2) n then
+            .ok (enqueue c ⟨remote, purpose, true⟩ sub resA (ap.regs r2) n) (pc + 1)
           else .fault (.exec .assertion)
         | _, _ => .fault (.epr .valueError)
   | _, _, _, _ => .fault (.exec .assertion)
@@ -276,6 +279,13 @@ def view (c : CState) (h : Epr.Req) (app : Nat) (ap : App) : Epr.State :=
     | some v => [(h.resAddr, v)]
   c.book.toEpr [(h.sub, app)] [(app, ⟨qarrs ++ rarrs, liftU ap.unit⟩)] (c.s.used.map Int.ofNat)
 
+/-- write the new result array into the `Exec` state `s1` and take over the bookkeeping of `e'` -/
+def commit (c : CState) (s1 : Exec.State) (app : Nat) (ap1 : App) (res : Int) (arr' : Epr.Arr)
+    (e' : Epr.State) : CState :=
+  let ap2 : App := { ap1 with arrays := upd ap1.arrays res (some arr') }
+  let s2 : Exec.State := { s1 with apps := upd s1.apps app (some ap2) }
+  { c with s := s2, book := Book.ofEpr e' }
+
 inductive CTry
   | err
   | no
@@ -307,9 +317,7 @@ def tryHandle (cfg : Cfg) (c : CState) (r : Epr.Resp) : CTry :=
             match s1.apps app with
             | none => .err
             | some ap1 =>
-              let ap2 : App := { ap1 with arrays := upd ap1.arrays h.resAddr (some arr') }
-              let s2 : Exec.State := { s1 with apps := upd s1.apps app (some ap2) }
-              .yes { c with s := s2, book := Book.ofEpr e' }
+              .yes (commit c s1 app ap1 h.resAddr arr' e')
           | _, _ => .err
 
 inductive CRes
